@@ -51,9 +51,10 @@ def ops(tier, cfg):
         W = cfg.w(t)
         fp = t != "i32"
         mm = [(2, 2, 2), (3, 3, 3), (4, 4, 4), (8, 8, 8), (3, 3, 1), (5, 3, 1), (1, 3, 5), (2, 1, 3), (1, 5, 1), (5, 3, W - 1), (5, 3, W), (5, 3, W + 1),
-              (4, 3, 2 * W + 1), (5, 2, 3 * W), (2, 3, 3 * W + 2), (12, 3, 5 * W + 2), (3, 5, 5 * W), (9, 3, 2 * W - 1)]
+              (4, 3, 2 * W + 1), (5, 2, 3 * W), (2, 3, 3 * W + 2), (12, 3, 5 * W + 2), (3, 5, 5 * W), (9, 3, 2 * W - 1),
+              (2, 3, W + 1), (7, 3, W + 1), (2, 3, 2 * W + 1), (6, 3, 2 * W + 1), (3, 3, 3 * W + 1), (2, 2, 4 * W + 1)]
         if tier == "quick" and t != "f32":
-            mm = mm[:4] + mm[9:13]
+            mm = mm[:4] + mm[9:13] + mm[18:]
         for (M, K, N) in sorted(set(mm)):
             if N < 1:
                 continue
@@ -67,6 +68,8 @@ def ops(tier, cfg):
             L.append((f"ew_mulacc[{t}|{n}]", t, (n,), t, (n,), t, (n,), "r += a * b - a;", False, True))
             L.append((f"ew_neg_abs[{t}|{n}]", t, (n,), t, (n,), t, (n,), "r = abs(-a) * b;", False, True))
             L.append((f"ew_cmp[{t}|{n}]", t, (n,), t, (n,), "b8", (n,), "r = a < b;", False, False))
+            L.append((f"scalar_ops[{t}|{n}]", t, (n,), t, (n,), t, (n,), "r = a; r += a(0); r -= b(0); r *= a(0); r /= b(0);", False, True))
+            L.append((f"scalar_div[{t}|{n}]", t, (n,), t, (n,), t, (n,), "r = a; r /= b(0);", False, True))
             if fp:
                 L.append((f"ew_sqrt[{t}|{n}]", t, (n,), t, (n,), t, (n,), "r = sqrt(abs(a)) / b;", False, True))
             for f in ("sum", "min", "max", "product") + (("norm",) if fp else ()):
